@@ -133,12 +133,13 @@ deep-copied class defaults `{}`), `_schema` optional. -/
 def Composite.init (processes steps flow topology state schema : KVs) (ov : OvStore) : CompOut :=
   Composite.checkAndOverride ⟨processes, steps, flow, topology, state, schema⟩ ov
 
-/-- one part of `merge`: `m = {}; m.update(deep_copy_internal(other_part)); deep_merge(m, loose);
-m = assoc_in({}, path, m)`. -/
+/-- one part of `merge`: `m = {}; m.update(deep_copy_internal(other_part));
+deep_merge(m, deep_copy_internal(loose)); m = assoc_in({}, path, m)` (the loose part is copied too
+since fix 54c1ca0). -/
 def mergePart (otherPart loose : KVs) (path : Path) : KVs :=
-  match deepCopyInternal (.dict otherPart) with
-  | .dict cp => embedPart path (deepMergeKVs (updateKVs [] cp) loose)
-  | _ => []
+  match deepCopyInternal (.dict otherPart), deepCopyInternal (.dict loose) with
+  | .dict cp, .dict lc => embedPart path (deepMergeKVs (updateKVs [] cp) lc)
+  | _, _ => []
 
 /-- `self.merge(composite, processes, topology, steps, flow, state, path, schema_override)`.
 `composite or Composite({})`: a `Composite` always has its five keys, hence is truthy. -/
@@ -591,7 +592,10 @@ def makeStore (env : ProcEnv) (ov : OvStore) (store : Option SNode) (composite :
     match setValue st (.dict initialState) with
     | .error e => .error e
     | .ok st' =>
-      .ok ⟨st', getProcs env false st', (getProcs env true st').getD (.dict []),
+      -- `self.state.get_processes() or {}` (fix 6deaef3: a store holding only steps)
+      .ok ⟨st', some (match getProcs env false st' with
+          | some p => if p.truthy then p else .dict []
+          | Option.none => .dict []), (getProcs env true st').getD (.dict []),
         match getFlow st' with
         | some f => if f.truthy then f else .dict []
         | Option.none => .dict [],
